@@ -1,0 +1,194 @@
+//go:build verif
+
+package face
+
+import (
+	enc "github.com/named-data/ndnd/std/encoding"
+)
+
+var _ = enc.TypeName
+
+// ---------------------------------------------------------------------------------------
+// stream framing (C11): ghost model of the byte stream behind reader.Read
+// ---------------------------------------------------------------------------------------
+//
+// The stream is an arbitrary (uninterpreted) function from positions to bytes together with an arbitrary length: the
+// contract below therefore speaks about EVERY stream. It is deliberately not a ghost slice: a function does not live in
+// the heap, so nothing the code writes (the compaction of the receive buffer, the BufferReader cursor) can touch it and
+// no frame reasoning is needed to know that the stream is still the same stream.
+
+func specC11Byte(i int) byte { panic("ghost") } // byte i of the stream
+func specC11Len(z int) int   { panic("ghost") } // total length of the stream (the argument is a dummy, always 0)
+
+var verifC11R int // ghost: how many bytes of the stream Read has delivered so far
+var verifC11K int // ghost: stream offset of the first byte not yet handed to onFrame
+
+// specC11Start(q): q is a block boundary of the stream (uninterpreted; constrained by specC11WFAt).
+func specC11Start(q int) bool { panic("ghost") }
+
+// NDN-TLV variable-length number at stream offset q (packet format specification: one byte below 253, otherwise a
+// marker byte 0xFD / 0xFE / 0xFF followed by 2 / 4 / 8 bytes, big endian).
+func specC11NumSize(q int) int {
+	switch {
+	case specC11Byte(q) <= 0xfc:
+		return 1
+	case specC11Byte(q) == 0xfd:
+		return 3
+	case specC11Byte(q) == 0xfe:
+		return 5
+	}
+	return 9
+}
+
+func specC11BE2(q int) uint64 { return uint64(specC11Byte(q))*256 + uint64(specC11Byte(q+1)) }
+func specC11BE4(q int) uint64 { return specC11BE2(q)*65536 + specC11BE2(q+2) }
+func specC11BE8(q int) uint64 { return specC11BE4(q)*4294967296 + specC11BE4(q+4) }
+
+func specC11NumVal(q int) uint64 {
+	switch {
+	case specC11Byte(q) <= 0xfc:
+		return uint64(specC11Byte(q))
+	case specC11Byte(q) == 0xfd:
+		return specC11BE2(q + 1)
+	case specC11Byte(q) == 0xfe:
+		return specC11BE4(q + 1)
+	}
+	return specC11BE8(q + 1)
+}
+
+// specC11TSize / specC11LSize / specC11Length: size of the TLV-TYPE field, size of the TLV-LENGTH field and the
+// TLV-LENGTH value of the block that starts at stream offset q.
+func specC11TSize(q int) int     { return specC11NumSize(q) }
+func specC11LSize(q int) int     { return specC11NumSize(q + specC11NumSize(q)) }
+func specC11Length(q int) uint64 { return specC11NumVal(q + specC11NumSize(q)) }
+
+// specC11BlockSize: total size (T, L and V) of the TLV block that starts at stream offset q.
+func specC11BlockSize(q int) int {
+	return specC11TSize(q) + specC11LSize(q) + int(specC11Length(q))
+}
+
+// specC11BlockOK: a well-formed block no larger than a packet starts at q: T and L in shortest form, the whole block
+// inside the stream.
+func specC11BlockOK(q int) bool {
+	return specC11TSize(q) == enc.SpecTLLen(specC11NumVal(q)) &&
+		specC11LSize(q) == enc.SpecTLLen(specC11Length(q)) &&
+		specC11Length(q) <= 8800 && specC11BlockSize(q) <= 8800 && q+specC11BlockSize(q) <= specC11Len(0)
+}
+
+// specC11Pending: the stream bytes [k, r) received so far do not yet contain the complete block that starts at k
+// (not even one byte; or not the whole TLV-TYPE; or not the whole TLV-LENGTH; or not the whole block).
+func specC11Pending(k int, r int) bool {
+	return r-k < 1 || r-k < specC11TSize(k) || r-k < specC11TSize(k)+1 || r-k < specC11TSize(k)+specC11LSize(k) || r-k < specC11BlockSize(k)
+}
+
+// specC11WFAt(q): the stream is a concatenation of well-formed blocks, stated at boundary q: if q is a boundary inside
+// the stream, a well-formed block starts there and the position after it is again a boundary. The property quantifies
+// over all such streams; the proof needs the fact only at the current delivery position, where the environment
+// contracts below provide it (a quantified form makes every solver loop on specC11Start(q+size)).
+func specC11WFAt(q int) bool {
+	return specC11Implies(specC11Start(q) && 0 <= q && q < specC11Len(0), specC11BlockOK(q) && specC11Start(q+specC11BlockSize(q)))
+}
+
+func specC11Implies(a, b bool) bool { return !a || b }
+
+// specC11Holds(buf, lo, hi, d): buf[lo:hi] holds the stream bytes [lo+d, hi+d), byte-identical and in order: d is the
+// distance between a position in the buffer and the position of the same byte in the stream (the bound variable is
+// the index into the buffer, which is what the solvers instantiate on; the distance is computed outside).
+func specC11Holds(buf []byte, lo int, hi int, d int) bool {
+	return forallIn(lo, hi, func(j int) bool { return buf[j] == specC11Byte(j+d) })
+}
+
+// specC11Eq9: buf[o+i] is stream byte q+i for the first min(n, 9) positions (quantifier-free on purpose).
+func specC11Eq9(buf []byte, o int, q int, n int) bool {
+	return (n < 1 || buf[o] == specC11Byte(q)) && (n < 2 || buf[o+1] == specC11Byte(q+1)) && (n < 3 || buf[o+2] == specC11Byte(q+2)) &&
+		(n < 4 || buf[o+3] == specC11Byte(q+3)) && (n < 5 || buf[o+4] == specC11Byte(q+4)) && (n < 6 || buf[o+5] == specC11Byte(q+5)) &&
+		(n < 7 || buf[o+6] == specC11Byte(q+6)) && (n < 8 || buf[o+7] == specC11Byte(q+7)) && (n < 9 || buf[o+8] == specC11Byte(q+8))
+}
+
+// A buffer that agrees with the stream on the bytes of a variable-length number decodes to the number of the stream.
+//
+//@ func lemmaC11Num
+//@   requires 0 <= o && n >= 1 && (n >= specC11NumSize(q) || n >= enc.SpecTLSize(buf, o)) && specC11Eq9(buf, o, q, n)
+//@   ensures [size] enc.SpecTLSize(buf, o) == specC11NumSize(q)
+//@   ensures [value] enc.SpecTLVal(buf, o) == specC11NumVal(q)
+func lemmaC11Num(buf []byte, o int, q int, n int) {}
+
+// Property C11: every block of the stream is handed to onFrame exactly once, byte-identical and in order, for every
+// chunking Read may choose (0 <= n <= len(p), any n per call, with or without an error); a stream of well-formed blocks
+// is never refused; when the stream ends cleanly every complete block received has been delivered.
+//
+// How the clauses say it:
+//   - `call onFrame requires`: what is handed up starts at the current boundary verifC11K (in order, none skipped), has
+//     exactly the size of the block that starts there (not split, not merged), lies inside the bytes received and is
+//     byte-identical to the stream; `call onFrame ensures` moves the boundary past it (none duplicated).
+//   - `ensures result == nil ==> specC11Pending`: at a clean end of the stream no complete block is left undelivered
+//     (none lost); the three `assert before New@k false` say that none of the "invalid stream" error returns is
+//     reachable on a stream of well-formed blocks (a refused stream loses every block after the refusal).
+//   - invariant [holds] across the `copy`: moving the unread bytes to the front preserves the unread region.
+//   - `call reader.Read requires len(p) >= 1` (Read is never offered an empty buffer: no spinning) and
+//     `loop 2 decreases`: progress.
+//
+// Proof structure (what made it decidable): the stream is a function, not a heap object; the big invariant is split
+// into labelled clauses; [holds] is stated over the absolute buffer index with the buffer-to-stream distance computed
+// outside the quantifier; both loop heads are proof cuts (loop-cut); the 8-byte big-endian decoding (specC11NumVal)
+// is opaque here and enters only through lemmaC11Num, instantiated at the two header fields from nine quantifier-free
+// byte equalities (specC11Eq9). The hints before New@k repeat the TLV-LENGTH cut because the first size check comes
+// before the first call at which a hint could otherwise be attached (the numbering of the three errors.New calls
+// follows the engine's block order, not the source order, hence the same hints at all three).
+//
+// The three `assume` lines are typing facts of the ghost symbols (an int is at most MaxInt64, a byte at most 255, a
+// uint64 at most MaxUint64): the engine gives no range to the result of a function it never unfolds. With
+// engine_stub_range.diff (delivered separately) they are generated by the engine and can be deleted.
+//
+//@ func readTlvStream
+//@   option loop-cut-1
+//@   option loop-cut-2
+//@   opaque specC11NumVal
+//@   requires ignoreError == nil && reader != nil
+//@   requires verifC11R == 0 && verifC11K == 0 && specC11Start(0) && 0 <= specC11Len(0)
+//@   requires specC11WFAt(0)
+//@   assume specC11Len(0) <= 9223372036854775807
+//@   assume forall(func(i int) bool { return 0 <= specC11Byte(i) && specC11Byte(i) <= 255 })
+//@   assume forall(func(i int) bool { return 0 <= specC11NumVal(i) && specC11NumVal(i) <= 18446744073709551615 })
+//@   call reader.Read requires len(p) >= 1
+//@   call reader.Read modifies p[*], verifC11R
+//@   call reader.Read ensures 0 <= n && n <= len(p) && n <= specC11Len(0)-old(verifC11R) && verifC11R == old(verifC11R)+n
+//@   call reader.Read ensures specC11Holds(p, 0, n, old(verifC11R)) && unchangedExcept(p, 0, n)
+//@   call reader.Read ensures specC11WFAt(verifC11K)
+//@   call onFrame requires specC11Start(verifC11K) && verifC11K+len(arg0) <= verifC11R && len(arg0) == specC11BlockSize(verifC11K) && specC11Holds(arg0, 0, len(arg0), verifC11K)
+//@   call onFrame modifies verifC11K
+//@   call onFrame ensures verifC11K == old(verifC11K)+len(arg0) && specC11WFAt(verifC11K)
+//@   modifies verifC11R, verifC11K
+//@   ensures result == nil ==> specC11Pending(verifC11K, verifC11R)
+//@   assert before ReadTLNum@2 sameSlice(rdr.buf, recvBuf[tlvOff:recvOff]) && 1 <= rdr.pos && rdr.pos <= recvOff-tlvOff
+//@   assert before ReadTLNum@2 specC11Eq9(rdr.buf, 0, verifC11K, rdr.pos)
+//@   assert before ReadTLNum@2 uses lemmaC11Num(rdr.buf, 0, verifC11K, rdr.pos) uint64(typ) == specC11NumVal(verifC11K) && rdr.pos == specC11TSize(verifC11K)
+//@   assert before EncodingLength@1 sameSlice(rdr.buf, recvBuf[tlvOff:recvOff]) && specC11TSize(verifC11K) < rdr.pos && rdr.pos <= recvOff-tlvOff
+//@   assert before EncodingLength@1 specC11Eq9(rdr.buf, specC11TSize(verifC11K), verifC11K+specC11TSize(verifC11K), rdr.pos-specC11TSize(verifC11K))
+//@   assert before EncodingLength@1 uses lemmaC11Num(rdr.buf, specC11TSize(verifC11K), verifC11K+specC11TSize(verifC11K), rdr.pos-specC11TSize(verifC11K)) uint64(len) == specC11Length(verifC11K) && rdr.pos == specC11TSize(verifC11K)+specC11LSize(verifC11K)
+//@   assert before New@1 sameSlice(rdr.buf, recvBuf[tlvOff:recvOff]) && specC11TSize(verifC11K) < rdr.pos && rdr.pos <= recvOff-tlvOff
+//@   assert before New@1 specC11Eq9(rdr.buf, specC11TSize(verifC11K), verifC11K+specC11TSize(verifC11K), rdr.pos-specC11TSize(verifC11K))
+//@   assert before New@1 uses lemmaC11Num(rdr.buf, specC11TSize(verifC11K), verifC11K+specC11TSize(verifC11K), rdr.pos-specC11TSize(verifC11K)) uint64(len) == specC11Length(verifC11K) && rdr.pos == specC11TSize(verifC11K)+specC11LSize(verifC11K)
+//@   assert before New@1 false
+//@   assert before New@2 sameSlice(rdr.buf, recvBuf[tlvOff:recvOff]) && specC11TSize(verifC11K) < rdr.pos && rdr.pos <= recvOff-tlvOff
+//@   assert before New@2 specC11Eq9(rdr.buf, specC11TSize(verifC11K), verifC11K+specC11TSize(verifC11K), rdr.pos-specC11TSize(verifC11K))
+//@   assert before New@2 uses lemmaC11Num(rdr.buf, specC11TSize(verifC11K), verifC11K+specC11TSize(verifC11K), rdr.pos-specC11TSize(verifC11K)) uint64(len) == specC11Length(verifC11K) && rdr.pos == specC11TSize(verifC11K)+specC11LSize(verifC11K)
+//@   assert before New@2 false
+//@   assert before onFrame@1 tlvSize == specC11BlockSize(verifC11K)
+//@   assert before onFrame@1 2 <= tlvSize && tlvOff+tlvSize <= recvOff && verifC11K+tlvSize <= verifC11R
+//@   assert before New@3 sameSlice(rdr.buf, recvBuf[tlvOff:recvOff]) && specC11TSize(verifC11K) < rdr.pos && rdr.pos <= recvOff-tlvOff
+//@   assert before New@3 specC11Eq9(rdr.buf, specC11TSize(verifC11K), verifC11K+specC11TSize(verifC11K), rdr.pos-specC11TSize(verifC11K))
+//@   assert before New@3 uses lemmaC11Num(rdr.buf, specC11TSize(verifC11K), verifC11K+specC11TSize(verifC11K), rdr.pos-specC11TSize(verifC11K)) uint64(len) == specC11Length(verifC11K) && rdr.pos == specC11TSize(verifC11K)+specC11LSize(verifC11K)
+//@   assert before New@3 false
+//@   loop 1 invariant 0 <= tlvOff && tlvOff <= recvOff && recvOff < len(recvBuf) && len(recvBuf) == 281600 && fresh(recvBuf)
+//@   loop 1 invariant [counters] 0 <= verifC11K && verifC11K <= verifC11R && verifC11K+(recvOff-tlvOff) == verifC11R && verifC11R <= specC11Len(0)
+//@   loop 1 invariant [boundary] specC11Start(verifC11K)
+//@   loop 1 invariant [wf] specC11WFAt(verifC11K)
+//@   loop 1 invariant [holds] specC11Holds(recvBuf, tlvOff, recvOff, verifC11K-tlvOff)
+//@   loop 1 invariant [pending] specC11Pending(verifC11K, verifC11R)
+//@   loop 2 invariant 0 <= tlvOff && tlvOff <= recvOff && recvOff <= len(recvBuf) && len(recvBuf) == 281600 && fresh(recvBuf)
+//@   loop 2 invariant [counters] 0 <= verifC11K && verifC11K <= verifC11R && verifC11K+(recvOff-tlvOff) == verifC11R && verifC11R <= specC11Len(0)
+//@   loop 2 invariant [boundary] specC11Start(verifC11K)
+//@   loop 2 invariant [wf] specC11WFAt(verifC11K)
+//@   loop 2 invariant [holds] specC11Holds(recvBuf, tlvOff, recvOff, verifC11K-tlvOff)
+//@   loop 2 decreases recvOff-tlvOff
